@@ -15,6 +15,21 @@ def gstr(tag, j, n):
     return "".join(pre[m] if m < len(pre) else chr(97 + ((j * 7 + m * 3) % 26)) for m in range(max(n, 0)))
 
 
+def kname(j, b, n):
+    """name of dictionary entry j whose strings derive from index b (harness kname)"""
+    g = gstr("k", b, n)
+    return "".join(chr(65 + ((j + m) % 26)) if m >= 63 else ch for m, ch in enumerate(g))
+
+
+def subcases(case):
+    """files opened together, in order: [(rank, case of that rank)]"""
+    if not case.startswith("M"):
+        return [(0, case)]
+    parts = case.split("||")
+    order = parts[0].split()[1]
+    return [(int(ch), parts[1 + int(ch)].strip()) for ch in order if int(ch) < len(parts) - 1]
+
+
 def ibyte(seed, m):
     return (seed * 31 + m * 7 + (m >> 8) * 13 + 1) & 0xff
 
@@ -29,7 +44,10 @@ def fnv(bs):
 def parse_case(case):
     hd, dic, infos, evs = case.split("|")
     pages, mode, ns = [int(x) for x in hd.split()]
-    keys = [tuple(int(x) for x in w.split(":")) for w in dic.split()]
+    keys = []
+    for j, w in enumerate(dic.split()):
+        f = [int(x) for x in w.split(":")]
+        keys.append(tuple(f[:4]) + ((f[4],) if len(f) > 4 else (j,)))        # (nlen, alen, clen, ilen, string index)
     ninfo = [int(x) for x in infos.split()]
     events = []
     for t in evs.split(";"):
@@ -74,7 +92,8 @@ class C42(Check):
                 "C42_has_info_flag_without_info_prefix_refuted", "C42_infos_kept_when_entry_fits",
                 "C42_oversized_info_omitted", "C42_kept_infos_position_independent",
                 "C42_repaired_loop_agrees_with_prefix", "C42_dump_thread_info_loop_prefix_refuted",
-                "C42_thread_entry_ends_before_buffer_end", "C42_thread_entry_exactly_full_prefix_refuted")
+                "C42_thread_entry_ends_before_buffer_end", "C42_thread_entry_exactly_full_prefix_refuted",
+                "C42_merged_dictionary_returns_written_key", "C42_events_through_merged_dictionary")
     comp = "prof"
     extract_file = "theories/Extract/Extract_Prof.v"
     extracted = ("prof",)
@@ -93,7 +112,11 @@ class C42(Check):
                   "the merge of several ranks' files, mmap/ftruncate/write and the I/O helper thread are outside the model.")
     level_note = ("Trusted: Coq kernel, extraction, the harness, the OCaml driver (parses the 224-byte file header and feeds "
                   "buffers to the model), the profiling build configuration (default options: mmap + helper thread). File offsets "
-                  "of buffers are an input of the model (taken from the file), timestamps are only checked for monotonicity.")
+                  "of buffers are an input of the model (taken from the file), timestamps are only checked for monotonicity. "
+                  "The merged dictionary of the reader (dico_map) is modelled (merge_files/presented, theorem "
+                  "C42_merged_dictionary_returns_written_key) and tested with names sharing their 63 stored characters and "
+                  "with 2-3 rank files opened in several orders; an entry merged into an earlier one is presented with the "
+                  "earlier one's attributes (the generator gives equal attributes to entries that merge).")
     technique = ("Coq proof (writer invariant for every entry sequence, chain walk for every injective offset allocation) + "
                  "differential run of the real writer/reader against the extracted reader and writer models on the same file bytes")
     rule = ("random dictionaries (info lengths aimed at events that exactly fill / overflow by one byte the remaining space of a "
@@ -224,6 +247,64 @@ class C42(Check):
             evs.append((r.below(ns), 2 * (j + 1) + r.below(2), r.pick([0, 2, 4]), 7, i, r.below(256) if hasinfo else None))
         return self.fmt(pages, 0, ns, keys, [0] * ns, evs)
 
+    def keyset(self, r, nb):
+        """a pool of keys: strings (by index) and a usual info length, all different"""
+        ils = r.shuffle([0, 4, 8, 12, 16, 24, 40, 56, 100, 200])
+        return [(r.range(3, 14), r.range(6, 14), r.pick([0, 0, 3, 10]), ils[b % len(ils)], b) for b in range(nb)]
+
+    def events_on(self, r, keys, ns, n):
+        evs = []
+        for i in range(n):
+            j = r.below(len(keys))
+            evs.append((r.below(ns), 2 * (j + 1) + r.below(2), r.pick([0, 2, 4]), r.pick([0, 7, U32]), r.pick([i, U64, r.u64()]),
+                        r.below(256) if r.chance(3, 4) else None))
+        return evs
+
+    def prefix_case(self, r):
+        """one file whose dictionary holds names that agree on the 63 characters the file stores (lengths around
+        62/63/64): with the same info length and convertor the reader merges them, every later entry then has a
+        merged index below its local one; with another info length or convertor they stay apart"""
+        pool = self.keyset(r, 6)
+        keys = []
+        for b in r.shuffle(range(6))[:r.range(3, 6)]:
+            nlen, alen, clen, il, _ = pool[b]
+            kind = r.below(5)
+            if kind == 0:                                   # two or three long names sharing the stored prefix: merged
+                L = r.pick([64, 65, 70, 90])
+                for _ in range(r.range(2, 3)):
+                    keys.append((L + r.below(3), alen, clen, il, b))
+            elif kind == 1:                                 # same stored name, other info length: not merged
+                keys.append((64, alen, clen, il, b))
+                keys.append((66, alen, clen, il + 4, b))
+            elif kind == 2:                                 # same stored name, other convertor: not merged
+                keys.append((64, alen, clen, il, b))
+                keys.append((64 + 3, alen, clen + 1, il, b))
+            else:
+                keys.append((r.pick([62, 63, nlen, nlen]), alen, clen, il, b))
+        ns = r.range(1, 2)
+        return self.fmt(1, r.below(2), ns, keys, [0] * ns, self.events_on(r, keys, ns, r.range(6, 20)))
+
+    def multi_cases(self, r):
+        """2-3 ranks, each with its own file: the shared keys are registered in another order, some ranks have keys
+        of their own, a shared name may have another info length on one rank; opened together in two orders"""
+        nr = r.range(2, 3)
+        pool = self.keyset(r, 7)
+        subs = []
+        for rank in range(nr):
+            mine = r.shuffle(range(7))[:r.range(2, 6)]
+            if rank > 0 and r.chance(1, 4):
+                mine = list(reversed(subs_keys0))          # same keys as rank 0, reverse order
+            keys = []
+            for b in mine:
+                nlen, alen, clen, il, _ = pool[b]
+                keys.append((nlen, alen, clen, il + (4 if r.chance(1, 6) else 0), b))
+            if rank == 0:
+                subs_keys0 = [k[4] for k in keys]
+            ns = r.range(1, 2)
+            subs.append(self.fmt(1, 0, ns, keys, [r.pick([0, 1]) for _ in range(ns)], self.events_on(r, keys, ns, r.range(4, 14))))
+        orders = r.shuffle(["01", "10"] if nr == 2 else ["012", "210", "102", "120", "201", "021"])[:2]
+        return ["M %s || %s" % (o, " || ".join(subs)) for o in orders]
+
     def flag_case(self, r):
         """PARSEC_PROFILING_EVENT_HAS_INFO with a NULL info.  The reader then misparses what follows; the cases are
         shaped so that the misparse stays inside defined behaviour (it never looks up a garbage dictionary index):
@@ -279,7 +360,8 @@ class C42(Check):
     @staticmethod
     def fmt(pages, mode, ns, keys, ninfo, evs):
         return "%d %d %d | %s | %s | %s" % (
-            pages, mode, ns, " ".join("%d:%d:%d:%d" % k for k in keys), " ".join(str(x) for x in ninfo),
+            pages, mode, ns, " ".join(("%d:%d:%d:%d" % tuple(k[:4])) + (":%d" % k[4] if len(k) > 4 and k[4] != j else "")
+                                      for j, k in enumerate(keys)), " ".join(str(x) for x in ninfo),
             " ; ".join("%d %d %d %d %d %s" % (e[0], e[1], e[2], e[3], e[4], "-" if e[5] is None else str(e[5])) for e in evs))
 
     def cases(self):
@@ -301,6 +383,11 @@ class C42(Check):
         # dictionaries of 1, 2, 3, 4+ buffers
         for nb in [1, 2, 3, 3, 4, 4, r.range(4, 6)] * mult:
             out.append(self.dict_case(r, nb))
+        # the merged dictionary of the reader: names equal on the 63 stored characters, several ranks opened together
+        for _ in range(4 * mult):
+            out.append(self.prefix_case(r))
+        for _ in range(3 * mult):
+            out += self.multi_cases(r)
         # the API accepts PARSEC_PROFILING_EVENT_HAS_INFO with a NULL info pointer
         for _ in range(2 * mult):
             out.append(self.flag_case(r))
@@ -329,6 +416,8 @@ class C42(Check):
         return pages, mode, ns, avail, bufs
 
     def nontrivial_key(self, case):
+        if case.startswith("M"):
+            return case
         try:
             pages, mode, ns, avail, bufs = self.shape(case)
         except Exception:
@@ -346,7 +435,22 @@ class C42(Check):
         d = {"cases": len(cases), "events": 0, "streams": {}, "pages": {}, "threaded": 0, "max_buffers_per_stream": 0,
              "buffers_exactly_full": 0, "switch_with_1_byte_missing": 0, "flag_without_info": 0,
              "dictionary_buffers": {}, "dict_buffer_ends_at_avail_minus_1": 0, "dict_entry_moved_for_ending_at_avail": 0}
+        d["multi_file_cases"] = sum(1 for c in cases if c.startswith("M"))
+        d["keys_merged_by_the_reader"] = 0
+        flat = []
         for c in cases:
+            try:
+                subs = subcases(c)
+                flat += [x[1] for x in subs]
+                seen = set()
+                for _, sc in subs:
+                    for j, k in enumerate(parse_case(sc)[3]):
+                        ident = (kname(j, k[4], k[0])[:63], k[2], k[3])
+                        d["keys_merged_by_the_reader"] += ident in seen
+                        seen.add(ident)
+            except Exception:
+                continue
+        for c in flat:
             try:
                 pages, mode, ns, keys, ninfo, evs = parse_case(c)
                 _, _, _, avail, bufs = self.shape(c)
@@ -376,6 +480,24 @@ class C42(Check):
 
     # ---- property oracle on the implementation's observation ----------------------
     def oracle(self, case, obs):
+        if not case.startswith("M"):
+            return self.oracle_single(case, obs)
+        if obs.startswith("<"):
+            return "no read-back: " + obs[:100]
+        try:
+            subs = subcases(case)
+        except Exception:
+            return None
+        segs = obs.split(" || ")
+        if segs[0] != "M" or len(segs) != len(subs) + 1:
+            return "%d files read back, %d were opened" % (len(segs) - 1, len(subs))
+        for (rank, sub), seg in zip(subs, segs[1:]):
+            r = self.oracle_single(sub, seg)
+            if r:
+                return "file of rank %d: %s" % (rank, r)
+        return None
+
+    def oracle_single(self, case, obs):
         try:
             pages, mode, ns, keys, ninfo, evs = parse_case(case)
         except Exception:
@@ -396,9 +518,9 @@ class C42(Check):
             return "the reader rejects the file: " + head[:80]
         # dictionary: N/A, then the user's keys, as the reader presents them
         want = ["N/A/000000//0"]
-        for j, (nlen, alen, clen, il) in enumerate(keys):
-            a = gstr("a", j, alen)[:127]
-            want.append("%s/%s/%s/%d" % (gstr("k", j, nlen)[:63], a[-6:] if len(a) >= 6 else None, gstr("c", j, clen), il))
+        for j, (nlen, alen, clen, il, b) in enumerate(keys):
+            a = gstr("a", b, alen)[:127]
+            want.append("%s/%s/%s/%d" % (kname(j, b, nlen)[:63], a[-6:] if len(a) >= 6 else None, gstr("c", b, clen), il))
         got = hw[2:]
         if len(got) != len(want):
             return "dictionary has %d entries, %d were registered" % (len(got), len(want))
@@ -464,12 +586,17 @@ class C42(Check):
         return None
 
     def signature(self, case, obs):
+        if case.startswith("M"):
+            return "merge-multi-file"
         try:
             pages, mode, ns, keys, ninfo, evs = parse_case(case)
         except Exception:
             return "badcase"
         if any((e[2] & 1) and e[5] is None for e in evs):
             return "hasinfo-flag-null-info"
+        idents = [(kname(j, k[4], k[0])[:63], k[2], k[3]) for j, k in enumerate(keys)]
+        if len(set(idents)) < len(idents):
+            return "merge-name-prefix63"
         if any(x > 3500 for x in ninfo) and obs.startswith("<"):
             avail = pages * PAGE - HDR
             if any(156 + 14 + x == avail for x in ninfo):
